@@ -417,7 +417,7 @@ Section Effects.
     destruct (is_known g sid cid) eqn:K; cbn [negb andb].
     - intro H. inversion H. subst. split; [apply quiet_refl|]. split; [reflexivity|].
       split; [reflexivity|]. intros _. reflexivity.
-    - destruct (cf_ge20 (g_cf g)).
+    - destruct (node_id_ok sid && cf_ge20 (g_cf g)).
       + destruct (sassoc (s2p "I_PRESENTATION") (vt_internal_members (tab g))) as [ip|]; [|discriminate].
         pose proof (route_q g (mkMsg sid system_child_id (vt_internal (tab g)) 0 ip []) I) as [Q E].
         destruct (route g (mkMsg sid system_child_id (vt_internal (tab g)) 0 ip [])) as [g0 r].
